@@ -89,6 +89,46 @@ Theorem C06_remove_detaches : forall e ops a s' r, caps_ok e -> in_agents e a = 
 Proof. exact remove_detaches_all. Qed.
 Print Assumptions C06_remove_detaches.
 
+(* a rejection is always justified: agent.cell = tgt is refused only because the target holds exactly `capacity`
+   agents and the agent is not one of them, or because a FixedAgent already has a cell (or is given None) *)
+Theorem C06_rejection_justified : forall e ops a tgt s' k, caps_ok e ->
+  let s := exec e init ops in
+  step e s (SetCell a tgt) = (s', Err k) ->
+  (k = E_FULL /\ ptr s a <> tgt /\ full_for e s tgt)
+  \/ (k = E_FIXED /\ e_kind e a = KFixed /\ ptr s a <> None)
+  \/ (k = E_ATTR /\ e_kind e a = KFixed /\ ptr s a = None /\ tgt = None).
+Proof. exact rejection_justified_all. Qed.
+Print Assumptions C06_rejection_justified.
+
+(* ... and a move only because of a full target, a missing cell in that direction, no current cell, or an unknown name *)
+Theorem C06_move_rejection_justified : forall e ops o s' k, caps_ok e ->
+  let s := exec e init ops in
+  (exists a c, o = MoveTo a c) \/ (exists a d, o = MoveRel a d) \/ (exists a name n, o = Move2D a name n) ->
+  step e s o = (s', Err k) ->
+  (k = E_FULL /\ exists c, full_for e s (Some c)) \/ k = E_NODIR \/ k = E_ATTR \/ k = E_BADDIR.
+Proof. exact move_rejection_justified_all. Qed.
+Print Assumptions C06_move_rejection_justified.
+
+(* ---- the direction table of Grid2DMovingAgent.move, re-extracted from the source on every run (T1):
+   keys are lower-case and distinct, every vector is a king's move; hence every entry is found under its own
+   name in any ASCII case, and a name outside the table is rejected before anything moves *)
+Theorem C06_direction_map_wellformed : dirmap_ok gen_direction_map = true.
+Proof. vm_compute. reflexivity. Qed.
+Print Assumptions C06_direction_map_wellformed.
+
+Theorem C06_direction_names_case_insensitive : forall name k v,
+  In (k, v) gen_direction_map -> lower name = k ->
+  lookup_dir gen_direction_map (lower name) = Some v /\ vec_ok v = true.
+Proof. exact (fun name k v => dirmap_case_insensitive gen_direction_map name k v C06_direction_map_wellformed). Qed.
+Print Assumptions C06_direction_names_case_insensitive.
+
+(* n, s, e, w, ne, nw, se, sw mean (row, column) steps with north = row - 1 and east = column + 1 *)
+Theorem C06_direction_map_compass :
+  map (lookup_dir gen_direction_map) [[110]; [115]; [101]; [119]; [110; 101]; [110; 119]; [115; 101]; [115; 119]] =
+  [Some [-1; 0]; Some [1; 0]; Some [0; 1]; Some [0; -1]; Some [-1; 1]; Some [-1; -1]; Some [1; 1]; Some [1; -1]].
+Proof. vm_compute. reflexivity. Qed.
+Print Assumptions C06_direction_map_compass.
+
 (* ---- C18, cell-space sites: a call that raises leaves the whole observation unchanged.
    The general statement covers every operation; the named ones are its instances for the sites listed
    in DESIGN.md (cell setter into a full cell, FixedCell setter, move_relative, Grid2DMovingAgent.move). *)
@@ -229,3 +269,10 @@ Example C18_example_continue :
 Proof.
   split; [apply reach_inv; exact C06_example_caps_ok|]. vm_compute. split; reflexivity.
 Qed.
+
+Example C06_example_direction_names :
+  In ([110; 111; 114; 116; 104], [-1; 0]) gen_direction_map /\
+  lower [78; 111; 82; 116; 72] = [110; 111; 114; 116; 104] /\
+  lookup_dir gen_direction_map (lower [78; 111; 82; 116; 72]) = Some [-1; 0] /\
+  lookup_dir gen_direction_map (lower [120]) = None.
+Proof. vm_compute. repeat split; try reflexivity. right. left. reflexivity. Qed.
